@@ -261,3 +261,109 @@ func VerifC11TwoSpecs() {
 	}
 	verifrt.Reach("c11.two-specs.end")
 }
+
+// c11Alias: a derivation on the root that adds nothing (nil / empty / already-carried tags, an
+// empty subscope name on an unprefixed root) names the root itself: metrics recorded through
+// both handles under one name are one metric in the snapshot - the counter is the sum, the
+// gauge the last update, timers and histograms hold every value.  Run with one and with two
+// registry shards (the shard hash is an uninterpreted function: the solver picks the shard).
+func c11Alias() {
+	prefixed := verifrt.Choose("prefixed", 2) == 1
+	prefix := ""
+	if prefixed {
+		prefix = "svc"
+	}
+	ts := NewTestScope(prefix, map[string]string{"r": "1"})
+	var alias Scope
+	switch verifrt.Choose("derivation", 4) {
+	case 0:
+		alias = ts.Tagged(nil)
+	case 1:
+		alias = ts.Tagged(map[string]string{})
+	case 2:
+		alias = ts.Tagged(map[string]string{"r": "1"})
+	case 3:
+		if prefixed {
+			alias = ts.Tagged(nil).Tagged(map[string]string{})
+		} else {
+			alias = ts.SubScope("")
+		}
+	}
+	fq := func(name string) string {
+		if prefix == "" {
+			return name
+		}
+		return prefix + "." + name
+	}
+	tags := map[string]string{"r": "1"}
+	a, b := verifrt.Int64("inc"), verifrt.Int64("inc")
+	ts.Counter("c").Inc(a)
+	alias.Counter("c").Inc(b)
+	g1, g2 := verifrt.Float64("gauge"), verifrt.Float64("gauge")
+	ts.Gauge("g").Update(g1)
+	alias.Gauge("g").Update(g2)
+	ts.Timer("t").Record(time.Second)
+	alias.Timer("t").Record(2 * time.Second)
+	ts.Histogram("h", ValueBuckets{1}).RecordValue(0)
+	alias.Histogram("h", ValueBuckets{1}).RecordValue(0)
+	snap := ts.Snapshot()
+	c, ok := snap.Counters()[KeyForPrefixedStringMap(fq("c"), tags)]
+	verifrt.Assert("c11.alias.counter-entry", ok)
+	if ok {
+		verifrt.Assert("c11.alias.counter-is-the-sum-over-both-handles", c.Value() == a+b)
+	}
+	g, ok := snap.Gauges()[KeyForPrefixedStringMap(fq("g"), tags)]
+	verifrt.Assert("c11.alias.gauge-entry", ok)
+	if ok {
+		verifrt.Assert("c11.alias.gauge-is-the-last-update", fbits(g.Value()) == fbits(g2))
+	}
+	t, ok := snap.Timers()[KeyForPrefixedStringMap(fq("t"), tags)]
+	verifrt.Assert("c11.alias.timer-entry", ok)
+	if ok {
+		verifrt.Assert("c11.alias.timer-holds-both-values", len(t.Values()) == 2)
+	}
+	h, ok := snap.Histograms()[KeyForPrefixedStringMap(fq("h"), tags)]
+	verifrt.Assert("c11.alias.histogram-entry", ok)
+	if ok {
+		verifrt.Assert("c11.alias.histogram-holds-both-samples", h.Values()[1] == 2)
+	}
+	verifrt.Assert("c11.alias.one-entry-per-metric", len(snap.Counters()) == 1 && len(snap.Gauges()) == 1 && len(snap.Timers()) == 1 && len(snap.Histograms()) == 1)
+	verifrt.Reach("c11.alias.end")
+}
+
+func VerifC11RootAlias()        { c11Alias() }
+func VerifC11RootAliasShards2() { c11Alias() } // registered with -gomaxprocs 2: two registry shards
+
+// VerifC11EmptyName: the empty string is a legal metric name; on a scope without a prefix the
+// full name is then empty too.  Every kind is found under the public key of (full name, tags).
+func VerifC11EmptyName() {
+	prefix := []string{"", "p"}[verifrt.Choose("prefix", 2)]
+	ts := NewTestScope(prefix, map[string]string{"r": "1"})
+	tags := map[string]string{"r": "1"}
+	v := verifrt.Int64("inc")
+	ts.Counter("").Inc(v)
+	ts.Gauge("").Update(1)
+	ts.Timer("").Record(time.Second)
+	ts.Histogram("", ValueBuckets{1}).RecordValue(0)
+	ts.Counter("named").Inc(1)
+	full := ""
+	if prefix != "" {
+		full = prefix + "."
+	}
+	snap := ts.Snapshot()
+	c, ok := snap.Counters()[KeyForPrefixedStringMap(full, tags)]
+	verifrt.Assert("c11.empty-name.counter-entry", ok)
+	if ok {
+		verifrt.Assert("c11.empty-name.counter-value-and-name", c.Value() == v && c.Name() == full)
+	}
+	_, ok = snap.Gauges()[KeyForPrefixedStringMap(full, tags)]
+	verifrt.Assert("c11.empty-name.gauge-entry", ok)
+	_, ok = snap.Timers()[KeyForPrefixedStringMap(full, tags)]
+	verifrt.Assert("c11.empty-name.timer-entry", ok)
+	_, ok = snap.Histograms()[KeyForPrefixedStringMap(full, tags)]
+	verifrt.Assert("c11.empty-name.histogram-entry", ok)
+	_, ok = snap.Counters()[KeyForPrefixedStringMap(full+"named", tags)]
+	verifrt.Assert("c11.empty-name.named-counter-entry", ok)
+	verifrt.Assert("c11.empty-name.two-counters", len(snap.Counters()) == 2)
+	verifrt.Reach("c11.emptyname.end")
+}
